@@ -1,6 +1,7 @@
 package props
 
 import (
+	"encoding/base64"
 	"bytes"
 	"context"
 	"fmt"
@@ -64,6 +65,7 @@ type c12Fix struct {
 	root           *gen.Type
 	// inputs (on read-only trap pages)
 	tb, tj, pb, pj, hj, hrespb []byte
+	bbJ                        []byte // JSON with long base64 values, start-aligned
 	hrespMsg, hrespMsgTrunc    []byte // reply envelope around hrespb (and a truncated one)
 	excb                       []byte // response wrapper carrying the exception field
 	bigT, bigJ                 []byte // a message whose encodings exceed every pooled buffer's default size
@@ -80,6 +82,7 @@ type c12Descs struct {
 	hresp  *thrift.TypeDescriptor
 	p      *dproto.TypeDescriptor
 	hfn    *thrift.FunctionDescriptor
+	bb     *dproto.TypeDescriptor // message with long bytes values
 	hconv  *j2t.HTTPConv
 	thconv *t2j.HTTPConv
 	xresp  *thrift.TypeDescriptor // response wrapper of X (field 0: HResp, field 1: Ex)
@@ -147,6 +150,9 @@ func (f *c12Fix) parse() (*c12Descs, error) {
 		return nil, err
 	}
 	d.p = ps.LookupMethodByName("M").Input()
+	if bs, err := dproto.NewDescritorFromContent(context.Background(), "bb.proto", c12BigBytesProto, nil); err == nil {
+		d.bb = bs.LookupMethodByName("M").Input()
+	}
 	mk := func(o conv.Options) conv.Options { return o }
 	a := t2j.NewBinaryConv(mk(conv.Options{}))
 	b := t2j.NewBinaryConv(mk(conv.Options{EnableHttpMapping: true, WriteDefaultField: true}))
@@ -531,6 +537,14 @@ func (f *c12Fix) ops() []c12Op {
 			err := d.j2p.DoInto(ctx, d.p, f.pj, &buf)
 			return resStr(buf, err)
 		}},
+		{"j2p.Do-long-bytes", func(d *c12Descs) (string, []byte) {
+			// long base64 texts, on a read-only input that starts (not ends) at a page boundary: the converter
+			// sees the caller's memory itself, and a write to it faults
+			if d.bb == nil {
+				return "no-desc", nil
+			}
+			return resStr(d.j2p.Do(ctx, d.bb, f.bbJ))
+		}},
 		{"j2p.Do-truncated", func(d *c12Descs) (string, []byte) { return resStr(d.j2p.Do(ctx, d.p, f.pj[:len(f.pj)*2/3])) }},
 		{"proto.Value.MarshalTo", func(d *c12Descs) (string, []byte) {
 			return resStr(pg.NewRootValue(d.p, f.pb).MarshalTo(d.p, &pg.Options{}))
@@ -613,6 +627,12 @@ func (f *c12Fix) ops() []c12Op {
 	return ops
 }
 
+const c12BigBytesProto = `syntax = "proto3";
+package verif;
+message BB { bytes b = 1; repeated bytes rb = 2; map<string, bytes> mb = 3; string s = 4; }
+service S { rpc M(BB) returns (BB); }
+`
+
 // c12Fixture generates the shared material of one case.
 func c12Fixture(cs *h.Case) *c12Fix {
 	f := &c12Fix{}
@@ -655,6 +675,14 @@ func c12Fixture(cs *h.Case) *c12Fix {
 		f.bigT = f.trap(tref.Encode(big))
 		f.bigJ = f.trap([]byte(RenderJSON(cs.R, big, bt, JSpell{}, JOpts{})))
 	}
+	{
+		b64 := func(n int) string { return base64.StdEncoding.EncodeToString(cs.R.Bytes(n)) }
+		doc := fmt.Sprintf(`{"b":"%s","rb":["%s","%s"],"mb":{"k":"%s"},"s":"tail"}`,
+			b64(768+cs.R.Intn(2500)), b64(cs.R.Intn(40)), b64(768+cs.R.Intn(800)), b64(760+cs.R.Intn(1200)))
+		t := h.TrapCopy([]byte(doc), false, true)
+		f.traps = append(f.traps, t)
+		f.bbJ = t.B
+	}
 	env := tref.WrapMessage("M", 2, 9, 0, tref.Encode(hresp))
 	f.hrespMsg = f.trap(env)
 	f.hrespMsgTrunc = f.trap(env[:len(env)-7])
@@ -693,6 +721,9 @@ func runC12(c *h.Ctx) {
 				return
 			}
 			base[i], _ = op.run(d)
+			if op.name == "j2p.Do-long-bytes" && strings.HasPrefix(base[i], "ok") {
+				cs.Cover("long_bytes_converted")
+			}
 		}
 		fresh, err := f.parse()
 		if err != nil {
